@@ -565,7 +565,8 @@ class C01(BTreeSpec):
         "real chain, walked forward and backward, is exactly that sequence",
         "array slots beyond slotuse (stale copies) are not part of the model",
         "unsigned short slotuse / size_t counters are modelled by Nat (no node capacity near 65535 is exercised)",
-        "element copy/assignment and the allocator meet their standard contracts; allocator propagation is not modelled",
+        "element copy/assignment and the allocator meet their standard contracts; which allocator instance a tree holds after "
+        "copy construction / assignment / swap is modelled as tlx does it (source's instance, unconditionally) and compared",
         "std::equal / std::lexicographical_compare / std::copy(_backward) meet their standard contracts",
         "keys and values are natural numbers in the correspondence; the theorems are generic in the key type and order",
     ]
@@ -574,6 +575,8 @@ class C01(BTreeSpec):
                     "line-protocol correspondence (harness/c01*.cpp through tlx's TLX_BTREE_FRIENDS hook, ASan+UBSan)",
                     "translator tools/c01_extract.py (slotmin formulas, is_full/is_few/is_underflow, result_flags_t bits, "
                     "btree_default_traits -> Gen/C01Consts.lean, regenerated on every run)",
+                    "branch trace of the erase case analysis computed by the model (Model/C01Trace.lean, proved to be the "
+                    "model's descent) for the deep-tree planner checks/c01_deep.py and the coverage table in the evidence",
                     "libstdc++ std::set/multiset/map/multimap as reference oracle (search aid only)"]
 
 
